@@ -282,6 +282,21 @@ func flowsTo(v ssa.Value) map[ssa.Value]bool {
 					out[y] = true
 					work = append(work, y)
 				}
+			case ssa.CallInstruction:
+				// passed to a new helper: the value continues as the helper's parameter
+				if flowCtx == nil {
+					continue
+				}
+				cal := y.Common().StaticCallee()
+				if cal == nil || !flowCtx.isNew(cal) {
+					continue
+				}
+				for k, a := range y.Common().Args {
+					if a == x && k < len(cal.Params) && !out[cal.Params[k]] {
+						out[cal.Params[k]] = true
+						work = append(work, cal.Params[k])
+					}
+				}
 			case *ssa.Return:
 				// returned by a new helper: the value continues at every call of the helper
 				if flowCtx == nil || !flowCtx.isNew(y.Parent()) {
